@@ -1,0 +1,95 @@
+//! Verification hooks, compiled only with the cargo feature `verif-hooks` (off by default).
+//!
+//! They give an external harness (a) a log of lock events of `broker.rs` and (b) cooperative
+//! yield points in front of every lock acquisition, so that a hand-written executor can decide
+//! the interleaving of several broker operations. Nothing here changes behaviour when no
+//! scheduler is installed: `yield_point` is then immediately ready and events are dropped.
+//!
+//! Event vocabulary (`what`): "req <lock> <mode>" before an acquisition, "acq <lock> <mode>" when a
+//! guard bound by `let` has been obtained, "down <lock>" after `downgrade()`, "rel <lock>" when that
+//! guard goes out of scope, and "sec <lock> <mode>" before a statement that acquires a temporary
+//! guard, uses it and releases it again within the same statement.
+use std::cell::{Cell, RefCell};
+use std::future::Future;
+use std::pin::Pin;
+use std::task::{Context, Poll};
+
+#[derive(Clone, Debug, PartialEq, Eq)]
+pub struct Event {
+    pub task: usize,
+    pub site: u32,
+    pub what: &'static str,
+}
+
+thread_local! {
+    static ENABLED: Cell<bool> = const { Cell::new(false) };
+    static CURRENT: Cell<usize> = const { Cell::new(0) };
+    static LOG: RefCell<Vec<Event>> = const { RefCell::new(Vec::new()) };
+}
+
+/// Switches logging and yielding on or off for the current thread and clears the log.
+pub fn enable(on: bool) {
+    ENABLED.with(|e| e.set(on));
+    LOG.with(|l| l.borrow_mut().clear());
+}
+
+/// Names the task whose future is about to be polled (events are attributed to it).
+pub fn set_current(task: usize) {
+    CURRENT.with(|c| c.set(task));
+}
+
+pub fn log_len() -> usize {
+    LOG.with(|l| l.borrow().len())
+}
+
+pub fn take_log() -> Vec<Event> {
+    LOG.with(|l| l.borrow().clone())
+}
+
+pub fn event(site: u32, what: &'static str) {
+    if ENABLED.with(|e| e.get()) {
+        let task = CURRENT.with(|c| c.get());
+        LOG.with(|l| l.borrow_mut().push(Event { task, site, what }));
+    }
+}
+
+struct YieldOnce(bool);
+
+impl Future for YieldOnce {
+    type Output = ();
+    fn poll(mut self: Pin<&mut Self>, _cx: &mut Context<'_>) -> Poll<()> {
+        if self.0 {
+            Poll::Ready(())
+        } else {
+            self.0 = true;
+            Poll::Pending
+        }
+    }
+}
+
+/// Logs `what` and, when hooks are enabled, returns `Pending` exactly once.
+pub async fn yield_point(site: u32, what: &'static str) {
+    if ENABLED.with(|e| e.get()) {
+        event(site, what);
+        YieldOnce(false).await
+    }
+}
+
+/// Logs `rel` when dropped; declare it right after the guard it shadows so that it is
+/// dropped just before that guard.
+pub struct Held {
+    site: u32,
+    rel: &'static str,
+}
+
+impl Drop for Held {
+    fn drop(&mut self) {
+        event(self.site, self.rel);
+    }
+}
+
+/// Logs `now` (an "acq ..." or "down ..." event) and returns a token logging `rel` on drop.
+pub fn held(site: u32, now: &'static str, rel: &'static str) -> Held {
+    event(site, now);
+    Held { site, rel }
+}
